@@ -452,5 +452,14 @@ def gen_inputs(tier, rnd):
                         ps.update([str(d - tiny), str(d + tiny)])
         ps.update(["0", "-100000", "100000", "1E+2", "0.5"])
         yield {"kind": "dec", "desc": desc, "probes": sorted(ps), "den": ditems}
+    # limits with more digits than the 28 of the default arithmetic context (cutplace's own default decimal range has 31),
+    # values inside, outside and on the limits: refusing a value means printing such limits
+    long_descs = ["-9999999999999999999.999999999999...9999999999999999999.999999999999", "0...12345678901234567890.123456789",
+                  "1, 100000000000000000000000000000...", "...-123456789012345678901234567890.5", "0.0000000000000000000000000000001...0.5",
+                  "-1...1, 99999999999999999999999999999999...100000000000000000000000000000000"]
+    for desc in long_descs:
+        yield {"kind": "dec", "desc": desc, "probes": ["0", "-1", "2", "0.75", "1E+20", "-1E+20", "99999999999999999999", "9999999999999999999.999999999999",
+                                                        "9999999999999999999.9999999999991", "12345678901234567890.1234567891", "1E+40", "-1E+40",
+                                                        "100000000000000000000000000000", "99999999999999999999999999999", "1E-40"]}
     for m in MALFORMED + ["1.5...1.4", "1e2...2e2", "0x10...0x20", "'a'...'z'", "tab", "1.5, 1.5", "0.5...1.5, 1...2", ",1", "1,,2", "1_0.5", "1.5.3", "NaN", "Infinity", "1E+3...5"]:
         yield {"kind": "dec", "desc": m, "probes": ["0", "1", "1.5", "65"]}
